@@ -17,6 +17,7 @@ use std::iter::Peekable;
 use std::time::Instant;
 
 /// Drains all blobs that come "before" the given vptr.
+#[cfg(test)]
 fn drain_blobs<I: Iterator<Item = crate::Result<(ScanEntry, BlobFileId)>>>(
     scanner: &mut Peekable<I>,
     key: &[u8],
@@ -139,6 +140,9 @@ pub struct RelocatingCompaction {
     blob_writer: BlobFileWriter,
     rewriting_blob_file_ids: HashSet<BlobFileId>,
     rewriting_blob_files: Vec<BlobFile>,
+
+    /// Blobs of the current key that were scanned before the vptr asking for them
+    skipped_blobs: Vec<(ScanEntry, BlobFileId)>,
 }
 
 impl RelocatingCompaction {
@@ -154,12 +158,52 @@ impl RelocatingCompaction {
             blob_writer,
             rewriting_blob_file_ids: rewriting_blob_files.iter().map(BlobFile::id).collect(),
             rewriting_blob_files,
+            skipped_blobs: Vec::new(),
         }
     }
 
-    // TODO: vvv validate/unit test this vvv
-    fn drain_blobs(&mut self, key: &[u8], indirection: &BlobIndirection) -> crate::Result<()> {
-        drain_blobs(&mut self.blob_scanner, key, indirection)
+    /// Takes the blob a vptr points to out of the blob scanner, skipping all (garbage) blobs
+    /// that come before it.
+    ///
+    /// The scanner merges the blob files by key and the sequence number stored in the blob,
+    /// but for one key that order is not necessarily the order of the vptrs in the table
+    /// stream (bulk-ingested blobs are written with seqno 0, while their tables get the global
+    /// seqno of the ingestion), so other blobs of the same key are set aside instead of dropped.
+    fn take_blob(
+        &mut self,
+        key: &[u8],
+        vptr: &BlobIndirection,
+    ) -> crate::Result<(ScanEntry, BlobFileId)> {
+        if self.skipped_blobs.first().is_some_and(|(e, _)| e.key != key) {
+            // NOTE: Leftovers of the previous key are garbage
+            self.skipped_blobs.clear();
+        }
+
+        if let Some(idx) = self.skipped_blobs.iter().position(|(e, id)| {
+            *id == vptr.vhandle.blob_file_id && e.offset == vptr.vhandle.offset
+        }) {
+            return Ok(self.skipped_blobs.swap_remove(idx));
+        }
+
+        loop {
+            #[expect(clippy::expect_used, reason = "vptr is expected to match with blob")]
+            let (entry, blob_file_id) = self
+                .blob_scanner
+                .next()
+                .expect("vptr was not matched with blob (scanner is unexpectedly exhausted)")?;
+
+            assert!(entry.key <= key, "vptr was not matched with blob");
+
+            if entry.key == key {
+                if blob_file_id == vptr.vhandle.blob_file_id
+                    && entry.offset == vptr.vhandle.offset
+                {
+                    return Ok((entry, blob_file_id));
+                }
+
+                self.skipped_blobs.push((entry, blob_file_id));
+            }
+        }
     }
 }
 
@@ -182,13 +226,8 @@ impl CompactionFlavour for RelocatingCompaction {
                 .rewriting_blob_file_ids
                 .contains(&indirection.vhandle.blob_file_id)
             {
-                self.drain_blobs(&item.key.user_key, &indirection)?;
-
-                #[expect(clippy::expect_used, reason = "vptr is expected to match with blob")]
-                let (blob_entry, blob_file_id) = self
-                    .blob_scanner
-                    .next()
-                    .expect("vptr was not matched with blob (scanner is unexpectedly exhausted)")?;
+                let (blob_entry, blob_file_id) =
+                    self.take_blob(&item.key.user_key, &indirection)?;
 
                 assert_eq!(
                     blob_file_id, indirection.vhandle.blob_file_id,
